@@ -124,3 +124,24 @@ Proof. exact interp0_zeros. Qed.
 (* the resampling is linear in the spectrum *)
 Theorem resampling_linear : forall c xp fp x, interp0 xp (map (Rmult c) fp) x = c * interp0 xp fp x.
 Proof. exact interp0_scale. Qed.
+
+(* the resampled spectrum of a non-negative spectrum is non-negative (any grid) *)
+Theorem resampled_nonneg : forall xp e x, (forall v, In v e -> 0 <= v) -> 0 <= interp0 xp e x.
+Proof. exact interp0_nonneg. Qed.
+
+(* the property for a 1D spectrum, all premises on the inputs: non-negative variance densities, one phase
+   per FFT bin; every component (direction 0: x carries the elevation variance, y and v are zero) *)
+Theorem variance_1d : forall c fs n xp e phases t s,
+  (4 <= n)%nat -> 0 < fs ->
+  length phases = (nfft n / 2)%nat ->
+  (forall row, In row phases -> (1 <= length row)%nat) ->
+  (forall v, In v e -> 0 <= v) ->
+  surface_timeseries c fs n xp (cols1d e) phases = Some (t, s) ->
+  variance s = sumR (tl (energy_terms c xp (fft_freqs fs n) (frequency_step (fft_freqs fs n)) 0 1 e)).
+Proof. exact variance_1d. Qed.
+
+(* the premises are satisfiable: length 4, one non-zero FFT bin *)
+Example variance_1d_example : exists t s,
+  surface_timeseries CZ 2 4 [1 / 4; 1] (cols1d [1; 1]) [[0]; [0]] = Some (t, s) /\
+  variance s = sumR (tl (energy_terms CZ [1 / 4; 1] (fft_freqs 2 4) (frequency_step (fft_freqs 2 4)) 0 1 [1; 1])).
+Proof. exact variance_1d_example. Qed.
